@@ -741,6 +741,7 @@ process_config_postinit (BusContext      *context,
   if (!bus_registry_set_service_context_table (context->registry,
 					       service_context_table))
     {
+      _dbus_hash_table_unref (service_context_table);
       BUS_SET_OOM (error);
       return FALSE;
     }
